@@ -305,6 +305,11 @@ func deriveOracle(calls []encCall, mixed, lossless bool) (StepOracle, StepFail) 
 		}
 		if len(invs) >= 4 {
 			f.K = invs[3].failed
+			if !invs[3].failed {
+				// the stored key frame comes from this encode; with an injected failure of its
+				// alternate-codec call its codec can differ from the candidate's (invs[2])
+				o.AltC = invs[3].alt
+			}
 		}
 	}
 	return o, f
